@@ -1314,7 +1314,7 @@ def gcd(l: int, r: Count) -> int:
         if (rgcd := gcd(l, r.r)) == 1:
             return 1
 
-        return min(lgcd, rgcd)
+        return pgcd(lgcd, rgcd)
 
     if isinstance(r, Mul):
         return max(gcd(l, r.l), gcd(l, r.r))
@@ -1328,6 +1328,9 @@ def gcd(l: int, r: Count) -> int:
         return pgcd(l, base)
 
     blog = int(log(l, base))
+
+    if isinstance(exp := r.exp, int):
+        blog = min(blog, exp)
 
     over = base ** blog
 
